@@ -579,10 +579,15 @@ fn layouts() -> Vec<Layout> {
 const LANG: SupportLang = SupportLang::JavaScript;
 
 fn rule_text(fix: &str, transform: bool) -> String {
+  rule_text_form(fix, transform, false)
+}
+
+/// `object`: the fix in object form (`fix: {template: ..}`), which is parsed on another path
+fn rule_text_form(fix: &str, transform: bool, object: bool) -> String {
   let mut r = json!({
     "id": "r", "language": "JavaScript",
     "rule": {"any": [{"pattern": FORMS[0]}, {"pattern": FORMS[1]}, {"pattern": FORMS[2]}]},
-    "fix": fix,
+    "fix": if object { json!({"template": fix}) } else { json!(fix) },
   });
   if transform {
     r["transform"] = json!({
@@ -595,7 +600,11 @@ fn rule_text(fix: &str, transform: bool) -> String {
 }
 
 fn load_rule(fix: &str, transform: bool) -> Result<RuleConfig<SupportLang>, String> {
-  let text = rule_text(fix, transform);
+  load_rule_form(fix, transform, false)
+}
+
+fn load_rule_form(fix: &str, transform: bool, object: bool) -> Result<RuleConfig<SupportLang>, String> {
+  let text = rule_text_form(fix, transform, object);
   let globals = GlobalRules::default();
   match guarded(std::panic::AssertUnwindSafe(|| from_yaml_string::<SupportLang>(&text, &globals))) {
     Ok(Ok(mut v)) if v.len() == 1 => Ok(v.pop().unwrap()),
@@ -606,7 +615,11 @@ fn load_rule(fix: &str, transform: bool) -> Result<RuleConfig<SupportLang>, Stri
 }
 
 fn load_fixer(fix: &str, transform: bool) -> Result<Fixer<SupportLang>, String> {
-  let rc = load_rule(fix, transform)?;
+  load_fixer_form(fix, transform, false)
+}
+
+fn load_fixer_form(fix: &str, transform: bool, object: bool) -> Result<Fixer<SupportLang>, String> {
+  let rc = load_rule_form(fix, transform, object)?;
   match guarded(std::panic::AssertUnwindSafe(|| rc.get_fixer())) {
     Ok(Ok(Some(f))) => Ok(f),
     Ok(Ok(None)) => Err("rule has no fixer".into()),
@@ -678,6 +691,9 @@ struct Prepared {
   tf: Result<TemplateFix, String>,
   fixer: Result<Fixer<SupportLang>, String>,
   trans: Vec<(Tpl, Result<Fixer<SupportLang>, String>)>,
+  /// the same fixes written in object form
+  fixer_obj: Result<Fixer<SupportLang>, String>,
+  trans_obj: Vec<Result<Fixer<SupportLang>, String>>,
 }
 
 fn prepare(tpl: &str, with_plain: bool, trans_tpls: &[String]) -> Prepared {
@@ -692,7 +708,9 @@ fn prepare(tpl: &str, with_plain: bool, trans_tpls: &[String]) -> Prepared {
   };
   let fixer = if with_plain { load_fixer(tpl, false) } else { Err("not requested".into()) };
   let trans = trans_tpls.iter().map(|t| (Tpl::new(t), load_fixer(t, true))).collect();
-  Prepared { plain: Tpl::new(tpl), tf, fixer, trans }
+  let fixer_obj = if with_plain { load_fixer_form(tpl, false, true) } else { Err("not requested".into()) };
+  let trans_obj = trans_tpls.iter().map(|t| load_fixer_form(t, true, true)).collect();
+  Prepared { plain: Tpl::new(tpl), tf, fixer, trans, fixer_obj, trans_obj }
 }
 
 macro_rules! stats {
@@ -839,6 +857,10 @@ fn apply(rep: &Reporter, st: &Stats, samples: &Smp, p: &Prepared, s: &Site, hand
       let got = guarded(std::panic::AssertUnwindSafe(|| Replacer::<D>::generate_replacement(fx, &s.nm_rule)));
       compare(rep, st, "rule-fixer", got, &exp, &c);
     }
+    if let Ok(fx) = &p.fixer_obj {
+      let got = guarded(std::panic::AssertUnwindSafe(|| Replacer::<D>::generate_replacement(fx, &s.nm_rule)));
+      compare(rep, st, "rule-fixer-object-form", got, &exp, &c);
+    }
     let sample = || {
       let mut v = c();
       v["expected_and_observed"] = json!(exp.text);
@@ -855,13 +877,17 @@ fn apply(rep: &Reporter, st: &Stats, samples: &Smp, p: &Prepared, s: &Site, hand
       Smp::offer(&samples.partial, sample);
     }
   }
-  for (t, fx) in &p.trans {
+  for (ti, (t, fx)) in p.trans.iter().enumerate() {
     let Ok(fx) = fx else { continue };
     let exp = ref_expand(&t.text, &t.pieces, &s.env_trans, s.m);
     count_pair(st, &exp);
     let c = || case(&t.text, true);
     let got = guarded(std::panic::AssertUnwindSafe(|| Replacer::<D>::generate_replacement(fx, &s.nm_trans)));
     compare(rep, st, "rule-fixer-transform", got, &exp, &c);
+    if let Some(Ok(fxo)) = p.trans_obj.get(ti) {
+      let got = guarded(std::panic::AssertUnwindSafe(|| Replacer::<D>::generate_replacement(fxo, &s.nm_trans)));
+      compare(rep, st, "rule-fixer-object-form-transform", got, &exp, &c);
+    }
     if exp.verdict == Verdict::Full && exp.judged_multiline_slots >= 2 && s.m > 0 && t.text.contains('U') && t.text.contains('V') && t.text.contains("\n  ") {
       Smp::offer(&samples.trans, || {
         let mut v = c();
